@@ -139,8 +139,9 @@ def run(ctx):
             else:
                 ctx.disagree("series:chebyshev-break-on-last-term-only", f"distance {dist:.3e} > accuracy {accuracy:g}; broke at order {k}", desc)
     # ---- exact routes: unitarity for long times and large coefficients ---------------------------
-    for case in range(24 if quick else 400):
-        route = rng.choice(["diagonal", "quadratic", "diagcoulomb", "individual", "individual-spinbroken", "individual-spinbroken"])
+    for case in range(36 if quick else 600):
+        route = rng.choice(["diagonal", "quadratic", "quadratic-sso", "quadratic-sso", "quadratic-gso", "diagcoulomb", "individual",
+                            "individual-spinbroken", "individual-spinbroken"])
         norb = rng.choice([2, 3])
         made = make_case(ctx, rng, route, norb)
         if made is None:
